@@ -536,8 +536,12 @@ def generate_system(rng, tier, index):
     elif variant == "over_consistent":
         for _ in range(int(rng.integers(1, 3))):
             cons.append(g.extra_consistent())
-    elif variant == "over_inconsistent":
-        cons.append(g.extra_inconsistent())
+    contradiction = None
+    if variant == "over_inconsistent":
+        bad = g.extra_inconsistent()
+        cons.append(bad)
+        # the deliberately contradictory input: everything that constrains this (object, axis) forms the contradictory pair
+        contradiction = {"object": bad["object"], "axis": bad["axis"] if bad["kind"] == "extend" else bad["axes"][0], "constraint": copy.deepcopy(bad)}
     if not g.uniform and cons and rng.uniform() < 0.1:
         # index-space feature on a non-uniform grid: documented rejection, must be rejected under every order
         variant = "index_space_on_nonuniform"
@@ -566,6 +570,8 @@ def generate_system(rng, tier, index):
         "target_family": target,
         "truth": g.truth,
     }
+    if contradiction is not None:
+        spec["contradiction"] = contradiction
     if spec["volume_mode"] == "real":
         spec["volume_real_shape"] = [float(nn * SPACING + _delta(rng, SPACING)) for nn in g.shape]
     spec["family"] = family_of(spec)
@@ -1027,24 +1033,147 @@ def execute_common(spec):
 # ====================================================================== known-finding predicates
 
 
-def known_c26(spec, violation) -> bool:
-    """Silently violated SizeConstraint on an axis of an object that has no position on that axis."""
-    if violation.get("monitor") != "violated_size":
-        return False
-    return (violation.get("object"), violation.get("axis")) in set(pattern_axes(spec))
+# Root cause shared by every predicate below: the solver stops as soon as every slice and shape is set and never validates
+# constraints whose inputs became known only after the extend-to-infinity fallback (or that were skipped because the axis was
+# already resolved).  Each predicate names ONE structural way of getting there and looks only at (spec, violation).
+
+_LIST_KEYS = ("axes", "sides", "coordinates", "own_positions", "other_positions", "margins", "grid_margins", "other_axes", "proportions", "offsets", "grid_offsets")
 
 
-def known_c27(spec, violation) -> bool:
-    """Order dependence in a system that contains a size-constrained axis without a position, where the
-    object that fails / differs is that very object."""
-    pat = pattern_axes(spec)
-    if not pat:
-        return False
+def _axis_entries(c, axis):
+    """positions j inside a (possibly multi-axis) constraint record that talk about `axis`."""
+    if c["kind"] == "extend":
+        return [0] if c["axis"] == axis else []
+    return [j for j, a in enumerate(c["axes"]) if a == axis]
+
+
+def _culprits(violation):
+    """C27: (object, axis or None) pairs that fail / differ."""
     m = violation.get("monitor")
     if m == "order_dependent_success":
         if violation.get("escaped"):
-            return False
-        return any(o in set(violation.get("error_objects", [])) for o, _ in pat)
+            return None
+        return [(o, None) for o in violation.get("error_objects", [])]
     if m == "order_dependent_slices":
-        return any([o, a] in violation.get("differing", []) for o, a in pat)
-    return False
+        return [(o, a) for o, a in violation.get("differing", [])]
+    return None
+
+
+def _late_size_axes(spec, need_position):
+    """(object, axis) carrying a SizeConstraint whose referenced extent only the fallback can determine."""
+    src = sources(spec)
+    pre = determinable_before_fallback(spec)
+    out = set()
+    for (name, a), sc_ in src.items():
+        if has_position(sc_) != need_position:
+            continue
+        if any(o != VOL and not pre.get((o, b), False) for o, b in sc_["size"]):
+            out.add((name, a))
+    return out
+
+
+def _late_extension_axes(spec):
+    """(object, axis) carrying an extend_to(other) whose target bounds only the fallback can determine."""
+    pre = determinable_before_fallback(spec)
+    out = set()
+    for c in spec["constraints"]:
+        if c["kind"] == "extend" and c["other"] not in (None, VOL) and not pre.get((c["other"], c["axis"]), False):
+            out.add((c["object"], c["axis"]))
+    return out
+
+
+def _contradiction_axis(spec):
+    """(object, axis) of the deliberately contradictory input, if the spec still contains it."""
+    if spec.get("variant") != "over_inconsistent" or not spec.get("contradiction"):
+        return None
+    con = spec["contradiction"]
+    rec = con["constraint"]
+    for c in spec["constraints"]:
+        if c["kind"] != rec["kind"] or c["object"] != rec["object"] or c.get("other") != rec.get("other"):
+            continue
+        if c["kind"] == "extend":
+            if all(c[k] == rec[k] for k in ("axis", "direction", "other_position", "offset", "grid_offset")):
+                return (con["object"], con["axis"])
+            continue
+        for j in _axis_entries(c, con["axis"]):
+            if all(c[k][j] == rec[k][0] for k in _LIST_KEYS if k in rec):
+                return (con["object"], con["axis"])
+    return None
+
+
+def _match_c27(violation, axes):
+    cul = _culprits(violation)
+    if not cul or not axes:
+        return False
+    return any((o, a) in axes if a is not None else any(o == o2 for o2, _ in axes) for o, a in cul)
+
+
+def k26_size_without_position(spec, v) -> bool:
+    """Silently violated SizeConstraint on an axis of an object that has no position on that axis."""
+    return v.get("monitor") == "violated_size" and (v.get("object"), v.get("axis")) in set(pattern_axes(spec))
+
+
+def k27_size_without_position(spec, v) -> bool:
+    return _match_c27(v, set(pattern_axes(spec)))
+
+
+def k26_size_reference_late(spec, v) -> bool:
+    """Violated SizeConstraint (object has a position on the axis) whose referenced extent is known only after the fallback."""
+    if v.get("monitor") != "violated_size" or (v.get("object"), v.get("axis")) not in _late_size_axes(spec, True):
+        return False
+    ci = v.get("constraint")
+    if ci is None or ci >= len(spec["constraints"]):
+        return False
+    c = spec["constraints"][ci]
+    if c["kind"] != "size" or c["object"] != v["object"] or c["other"] == VOL:
+        return False
+    pre = determinable_before_fallback(spec)
+    return any(not pre.get((c["other"], c["other_axes"][j]), False) for j in _axis_entries(c, v["axis"]))
+
+
+def k27_size_reference_late(spec, v) -> bool:
+    return _match_c27(v, _late_size_axes(spec, True))
+
+
+def k26_extension_target_late(spec, v) -> bool:
+    """Violated extend_to(other) whose target bounds are known only after the fallback."""
+    if v.get("monitor") != "violated_extension" or v.get("to") in (None, "volume"):
+        return False
+    ci = v.get("constraint")
+    if ci is None or ci >= len(spec["constraints"]):
+        return False
+    c = spec["constraints"][ci]
+    if c["kind"] != "extend" or c["object"] != v.get("object") or c["axis"] != v.get("axis"):
+        return False
+    return (c["object"], c["axis"]) in _late_extension_axes(spec)
+
+
+def k27_extension_target_late(spec, v) -> bool:
+    return _match_c27(v, _late_extension_axes(spec))
+
+
+def k26_contradiction(spec, v) -> bool:
+    """A constraint / partial field of the deliberately contradictory (object, axis) is violated on a successful placement."""
+    ax = _contradiction_axis(spec)
+    return ax is not None and str(v.get("monitor", "")).startswith("violated_") and (v.get("object"), v.get("axis")) == ax
+
+
+def k27_contradiction(spec, v) -> bool:
+    ax = _contradiction_axis(spec)
+    return ax is not None and _match_c27(v, {ax})
+
+
+KNOWN_C26 = {
+    "size_constrained_axis_without_position": k26_size_without_position,
+    "size_reference_known_only_after_fallback": k26_size_reference_late,
+    "extension_target_known_only_after_fallback": k26_extension_target_late,
+    "contradictory_overspecification_accepted": k26_contradiction,
+}
+KNOWN_C27 = {
+    "size_constrained_axis_without_position": k27_size_without_position,
+    "size_reference_known_only_after_fallback": k27_size_reference_late,
+    "extension_target_known_only_after_fallback": k27_extension_target_late,
+    "contradictory_overspecification_accepted": k27_contradiction,
+}
+known_c26 = k26_size_without_position
+known_c27 = k27_size_without_position
